@@ -135,6 +135,11 @@ func newSmcWorld(e *Env, wd bool) *smcWorld {
 		EnableWatchdog:     wd,
 		WatchdogInterval:   w.W,
 	}
+	if wd && t.Chance(1, 3) {
+		// a watchdog stream only means something on a multi-stream transport; elsewhere it is ignored
+		w.cli.WatchdogStream = uint(t.Range(1, 15))
+		e.Probe("watchdog-stream-on-single-stream-transport")
+	}
 	// advertised applications
 	switch t.Pick(3, 2, 2, 1, 1) {
 	case 4:
